@@ -1,8 +1,15 @@
 """Configuration of ./check for property C02 (loaded by tools/props.py)."""
 
-PROP = {'engine': 'parse',
- 'lean_props': ['MuscleModel.Props.C02'],
- 'harnesses': [{'name': 'parse', 'sources': ['harness/parse.cpp'], 'extra': ['c:lang/c/minimessage/MiniMessage.c', 'c:lang/c/micromessage/MicroMessage.c']},
+PROP = {'assumptions': ['memory safety of the binaries is validated (sanitizers on generated hostile inputs), not proved',
+                 'the cost theorems are about the tally of the instrumented model; its tie to the bytes the binary really allocates is the regenerated guards '
+                 'plus the measured-allocation oracle of the harness (<= 96*N + 256 KiB on the generated inputs), not a proof',
+                 'the field-table charge models util/Hashtable.h by hand (capacity set by EnsureSize, array allocated at the first Put, doubled when a new key '
+                 'meets a full table, a repeated key re-uses its slot); its bound table <= 3*N is proved for the regenerated presize cap (some 32; any cap <= '
+                 '36)',
+                 'the gateway and packet-tunnel input paths are exercised by the engines gw and tun (their generated streams incl. hostile/dirty input run '
+                 'under this check too: crashes, sanitizer reports, hangs and correspondence breaks count; their own oracles belong to C03/C12)'],
+ 'engine': 'parse',
+ 'harnesses': [{'extra': ['c:lang/c/minimessage/MiniMessage.c', 'c:lang/c/micromessage/MicroMessage.c'], 'name': 'parse', 'sources': ['harness/parse.cpp']},
                {'cflags': ['-std=gnu++11',
                            '-O1',
                            '-g',
@@ -13,11 +20,16 @@ PROP = {'engine': 'parse',
                            '-DMUSCLE_ENABLE_ZLIB_ENCODING',
                            '-DMUSCLE_NO_EXCEPTIONS',
                            '-DMUSCLE_VERIF_HOOKS'],
+                'engine': 'gw',
                 'name': 'gw',
                 'sources': ['harness/gw.cpp'],
-                'timeout': 900,
-                'engine': 'gw'},
-               {'name': 'tun', 'sources': ['harness/tun.cpp'], 'engine': 'tun'}],
+                'timeout': 900},
+               {'engine': 'tun', 'name': 'tun', 'sources': ['harness/tun.cpp']}],
+ 'lean_props': ['MuscleModel.Props.C02'],
+ 'rule': 'hostile inputs derived from valid encodings (every truncation; every structural 32-bit word and sampled byte offsets replaced by boundary values and '
+         'by every type code; splices; random bytes behind a valid header; nesting around and far beyond the limit; huge declared counts), each parsed from an '
+         'exact-size heap copy by the C++, mini, micro (valid inputs only) and Python parsers; the C++ result line must equal the Lean model decode; direct '
+         'oracle: normal return, reusable object, re-flattenable result, allocation <= 96*N + 256 KiB, watchdog; distinct = distinct case bodies',
  'trusted_base': ['hand-written Lean model of Message::Flatten/Unflatten/FlattenedSize and the public mutators (lean/MuscleModel/Wire); the parser model '
                   'Wire/Decode.lean is tied to Message::Unflatten by the hostile-input correspondence run of this check',
                   'hand-written instrumented twin of the parser (lean/MuscleModel/Wire/DecodeCost.lean): WHAT is charged where (entry-table slots, array '
@@ -29,21 +41,19 @@ PROP = {'engine': 'parse',
                   'type codes, protocol version, per-type wire sizes and the nesting limit are regenerated from /repo on every run (tools/extract_consts.cpp)',
                   'ASan/UBSan as detectors of out-of-bounds accesses and undefined behaviour in the compiled parsers; the sanitizer allocator hooks for the '
                   'allocation tally',
-                  'harness/cdialects.h (dumps through the public mini/micro getters), tools/pymsg_driver.py'],
- 'assumptions': ['memory safety of the binaries is validated (sanitizers on generated hostile inputs), not proved',
-                 'the cost theorems are about the tally of the instrumented model; its tie to the bytes the binary really allocates is the regenerated guards '
-                 'plus the measured-allocation oracle of the harness (<= 96*N + 256 KiB on the generated inputs), not a proof',
-                 'the field-table charge models util/Hashtable.h by hand (capacity set by EnsureSize, array allocated at the first Put, doubled when a new key '
-                 'meets a full table, a repeated key re-uses its slot); its bound table <= 3*N is proved for the regenerated presize cap (some 32; any cap <= '
-                 '36)',
-                 'the gateway and packet-tunnel input paths are exercised by the engines gw and tun (their generated streams incl. hostile/dirty input run '
-                 'under this check too: crashes, sanitizer reports, hangs and correspondence breaks count; their own oracles belong to C03/C12)'],
- 'rule': 'hostile inputs derived from valid encodings (every truncation; every structural 32-bit word and sampled byte offsets replaced by boundary values and '
-         'by every type code; splices; random bytes behind a valid header; nesting around and far beyond the limit; huge declared counts), each parsed from an '
-         'exact-size heap copy by the C++, mini, micro (valid inputs only) and Python parsers; the C++ result line must equal the Lean model decode; direct '
-         'oracle: normal return, reusable object, re-flattenable result, allocation <= 96*N + 256 KiB, watchdog; distinct = distinct case bodies'}
+                  'harness/cdialects.h (dumps through the public mini/micro getters), tools/pymsg_driver.py']}
 
 TEXT = {'design_ref': 'DESIGN.md section 4, C02',
+ 'note': 'The tally is a model quantity: what is charged where was read off the C++ by hand; its tie to the binary is the regenerated guards and the measured '
+         'allocation oracle.  Finding C02-nested-entry-counts (found by this cost theorem, fixed by fdd2b0b): the field table used to be presized for the '
+         'DECLARED entry count at every nesting level, and the views of nested Messages overlap, so the reservation was linear in N only with the nesting '
+         'limit in the constant (107482 bytes requested 137.8 MB); now min(numEntries, 32) + doubling, table <= 3*N proved for every nesting limit; '
+         'uncapped_table_exceeds_view_twelfth keeps the fact about the uncapped model, corpus/C02/parse-regress-nested-entry-counts.ops replays the family '
+         '(13.8 MB / 44.8 MB before the fix, 226 KB / 473 KB after), mutants/C02/guard-entry-presize-cap-removed.diff breaks cost_linear through the '
+         'regenerated constant.  Not proved: cost theorems for the templated parser and the C codecs.  The input paths of the I/O gateways and packet tunnels '
+         'are exercised here through the engines gw and tun (same harnesses as C03/C12).  Open known findings (corpus/C02/parse-known-*.ops): the micro codec '
+         'validates nothing (F8, one trigger per call site).  Repaired and guarded by regression cases: the mini codec recursed without bound (F15) and '
+         'accepted string items without a NUL terminator.',
  'technique': 'Lean 4 theorems over the parser model `decode` and its instrumented twin `decodeT` (cost tally on every path), quantified over all byte '
               'strings, fuels, levels and nesting limits; the guards the cost proofs rest on are re-derived from the source text of Message.cpp on every run '
               '(tools/extract_parse_guards.py -> Generated/ParseGuards.lean), so deleting one breaks the proofs + hostile-input correspondence of `decode` '
@@ -65,13 +75,4 @@ TEXT = {'design_ref': 'DESIGN.md section 4, C02',
          'counts, each parsed from an exact-size heap copy: the C++ parser returns exactly what the Lean model of the parser predicts (ok + content, or '
          'error); no sanitizer report, no hang; the object is reusable afterwards and an accepted object re-flattens into its advertised size; bytes requested '
          'from the allocator during the parse stay within 96*N + 256 KiB.  The same direct oracle runs on the mini codec (hostile inputs), the Python codec '
-         '(hostile inputs) and the micro codec (valid inputs; hostile ones are the known-finding corpus).',
- 'note': 'The tally is a model quantity: what is charged where was read off the C++ by hand; its tie to the binary is the regenerated guards and the measured '
-         'allocation oracle.  Finding C02-nested-entry-counts (found by this cost theorem, fixed by fdd2b0b): the field table used to be presized for the '
-         'DECLARED entry count at every nesting level, and the views of nested Messages overlap, so the reservation was linear in N only with the nesting '
-         'limit in the constant (107482 bytes requested 137.8 MB); now min(numEntries, 32) + doubling, table <= 3*N proved for every nesting limit; '
-         'uncapped_table_exceeds_view_twelfth keeps the fact about the uncapped model, corpus/C02/parse-regress-nested-entry-counts.ops replays the family '
-         '(13.8 MB / 44.8 MB before the fix, 226 KB / 473 KB after), mutants/C02/guard-entry-presize-cap-removed.diff breaks cost_linear through the '
-         'regenerated constant.  Not proved: cost theorems for the templated parser and the C codecs.  The input paths of the I/O gateways and packet tunnels '
-         'are exercised here through the engines gw and tun (same harnesses as C03/C12).  Open known findings (corpus/C02/parse-known-*.ops): the micro codec '
-         'validates nothing (F8, one trigger per call site), the mini codec recurses without bound (F15) and accepts string items without a NUL terminator.'}
+         '(hostile inputs) and the micro codec (valid inputs; hostile ones are the known-finding corpus).'}
